@@ -135,6 +135,7 @@ inline double throwing(const std::string& s) { return std::stod(s); }
 inline double vector_element(std::vector<double>& v) { return v[0]; }
 inline double dangling(double x) { const double& r{std::clamp(x, -1.0, 1.0)}; return r; }
 inline double history(double x) { static const double first{x}; return first; }
+inline int counter() { static int n = 0; return ++n; }
 inline double array_element(std::array<double, 3>& a, std::size_t i) { return a[i]; }
 }  // namespace phq_verif_control
 '''
